@@ -31,6 +31,7 @@ func init() {
 		"vfTier":    vfTier,
 		"vfSameFloat": vfSameFloat,
 		"vfGuardMap":  vfGuardMap,
+		"vfEmbedRoot": vfEmbedRoot,
 		"vfLocksHeld": vfLocksHeld,
 		"vfConc":    vfConc,
 		"vfSymbolic": func(fr *frame, a []value) value { return true },
